@@ -207,6 +207,7 @@ impl Property for C14 {
                 let dmg = apply(img, m);
                 if dmg == *img { continue; }
                 rep.evals += 1;
+                rep.fault(match m { Mut::Trunc(_) => "image_truncated", Mut::Flip(..) => "image_bit_flipped", Mut::Flip2(..) => "image_two_bits_flipped_in_a_byte", Mut::Burst(..) => "image_burst_up_to_32_bits" });
                 if *enc == 0 && !wal_layout.is_empty() {
                     // the read that skips entries below a stamp threshold must end at the damage as well: nothing
                     // that lies behind the first damaged byte may come back
